@@ -6,7 +6,8 @@ from ..core import Prov, has_root, op_place, roots_str
 def run(ctx, rep):
     rep.decided += [
         "poll: the RxDone test precedes the timer poll; Ready(Ok) only on the success edge of RxDone->RxProcessing; expiry with no retries left releases and returns Err(Timeout)",
-        "retry path: re-arm timer, poll it once, store Sendable, wake the sender, decrement retries_left by exactly one; retries_left written only there and from the constructor argument",
+        "retry path: re-arm timer, poll it once (re-waking the task if it is already due), re-queue the frame by compare-exchange Sent -> Sendable, wake the sender only then, decrement retries_left by exactly one; retries_left written only there and from the constructor argument",
+        "a reply nobody waits for any more (expired, dropped, duplicate) is Ok(Ignored) in receive_frame, not an error: the shipped TX/RX tasks end on any Err from receive_frame",
         "RetryBehaviour::retry_count maps None/Count(n)/Forever to 0/n/usize::MAX",
         "S7 every plain store to the slot state is made by a sole holder or under reset's unsafe contract (reports the stores that can race with the transmit/receive side)",
     ]
@@ -22,6 +23,7 @@ def run(ctx, rep):
         slotfsm.s6_poll(prog, rep, "C06", tag)
         poll_rules(prog, rep, tag)
         retry_count(prog, rep, tag)
+        late_replies(prog, rep, tag)
 
 
 def poll_rules(prog, rep, tag):
@@ -32,7 +34,7 @@ def poll_rules(prog, rep, tag):
     tp = [c for c in b.calls() if c.is_("Future::poll", "FutureExt::poll") and has_root(pr.of_operand(c.args[0]), "field", "ReceiveFrameFut", "timeout_timer")]
     ok = len(sw) == 1 and len(tp) >= 1 and all(b.dominates(sw[0].bb, t.bb) for t in tp)
     rep.ob(P, "done-test-before-timer" + tag, ok, "the RxDone->RxProcessing test dominates every poll of the timeout timer: a response already received wins over the deadline", loc=b.span)
-    rep.floor("C06 timer polls in poll" + tag, len(tp), 2)
+    rep.floor("C06 timer polls in poll" + tag, len(tp), 1)
     # Ready(Ok(..)) only on success edge
     oks = [x for x in q.aggregates(b, "Result", "Ok")]
     good = bool(oks) and len(sw) == 1
@@ -59,8 +61,18 @@ def poll_rules(prog, rep, tag):
         st = [c for c in b.calls_to("FrameBox::swap_state") if slotfsm._state_of(pr.of_operand(c.args[1])) == ["Sent"] and slotfsm._state_of(pr.of_operand(c.args[2])) == ["Sendable"]]
         plain = [c for c in b.calls_to("FrameBox::set_state") if slotfsm._state_of(pr.of_operand(c.args[1])) == ["Sendable"]]
         wk = b.calls_to("PduLoop::wake_sender")
-        tp2 = [t for t in tp if arm and t.bb in b.reachable_strict(arm[0][0])]
-        parts = {"rearm": bool(arm), "poll-once": bool(tp2), "requeue-by-cas-from-Sent": len(st) == 1 and not plain, "wake": len(wk) == 1}
+        # the re-armed timer must get polled with its expiry handled: either this future asks to be polled
+        # again right away (wake_by_ref after the re-arm; the poll at the top of the next call handles a timer
+        # that is already due), or it polls the new timer here and acts on Ready.  A poll whose result is
+        # thrown away loses the expiry of a timer that is due at once.
+        selfwake = [c for c in b.calls() if (c.decl_s or "").endswith("Waker::wake_by_ref") and arm and c.bb in b.reachable_strict(arm[0][0]) and b.dominates(arm[0][0], c.bb)]
+        tp_after = [t for t in tp if arm and t.bb in b.reachable_strict(arm[0][0]) and b.dominates(arm[0][0], t.bb)]
+        used = []
+        for t in tp_after:
+            if any(cd.bb in b.reachable_strict(t.bb) and any(x[0] == "call" and len(x) > 2 and x[2] == t.bb for x in Prov(b, follow_all={"Poll::is_ready", "Poll::is_pending"}).of_operand(cd.t["d"] if cd.kind != "discr" else {"copy": cd.place})) for cd in q.conds(b)):
+                used.append(t)
+        tp2 = selfwake or used
+        parts = {"rearm": bool(arm), "new-timer-polled-with-expiry-handled": bool(tp2) and not (tp_after and not used and not selfwake), "requeue-by-cas-from-Sent": len(st) == 1 and not plain, "wake": len(wk) == 1}
         if all(parts.values()):
             seq = [arm[0][0], tp2[0].bb, st[0].bb, bi]
             inorder = all(b.dominates(seq[i], seq[i + 1]) for i in range(len(seq) - 1))
@@ -128,3 +140,41 @@ def retry_count(prog, rep, tag):
     okc = any(any(x.startswith("field:RetryBehaviour:0") or "Count" in x for x in v) for v in d.get("Count", []))
     ok = okn and okf and okc
     rep.ob(P, "mapping" + tag, ok, "retry_count maps None->0, Count(n)->n, Forever->usize::MAX; observed %s" % d, loc=b.span, how="dataflow")
+
+
+def late_replies(prog, rep, tag):
+    """'Expiry or abandonment ... never breaks the transmit/receive tasks': every shipped TX/RX task returns
+    (ends) when PduRx::receive_frame returns Err.  After a request expired or was dropped its reply can still
+    arrive; after a retry both replies can arrive.  Those frames find no slot awaiting them: the three places
+    where receive_frame discovers that (lookup finds nothing, the claim fails, the marker changed after the
+    claim) must answer Ok(Ignored)."""
+    P = "C06.rx"
+    b = prog.body("PduRx::receive_frame")
+    pr = Prov(b)
+    ign = {x[0] for x in q.aggregates(b, "ReceiveAction", "Ignored")}
+    errs = {c.bb for c in b.calls() if c.is_("FromResidual::from_residual")} | {x[0] for x in q.aggregates(b, "Result", "Err")}
+    edges = {}
+    for cd in q.conds(b):
+        if cd.kind == "discr":
+            r = pr.of_operand({"copy": cd.place})
+            for nm, key in (("PduStorageRef::frame_index_by_first_pdu_index", "lookup-found-nothing"), ("PduStorageRef::claim_receiving", "claim-failed")):
+                if any(x[0] == "call" and x[1] == nm for x in r) and "Option" in (cd.enum_ty or ""):
+                    t = cd.variant_targets(prog).get("None")
+                    if t is not None:
+                        edges[key] = (cd.bb, t)
+        elif cd.kind == "call" and cd.call is not None:
+            t_ = prog.by_path.get(cd.call.res) or prog.by_path.get(cd.call.decl)
+            reach = cd.call.is_("FrameElement::first_pdu_is") or (t_ is not None and any(x.calls_to("FrameElement::first_pdu_is") for x in prog.callees_closure([t_], depth=3)))
+            if reach and has_root(pr.of_operand(cd.call.args[0]), "call", "PduStorageRef::claim_receiving"):
+                edges["marker-changed-after-claim"] = (cd.bb, cd.false_target())
+    for key in ("lookup-found-nothing", "claim-failed", "marker-changed-after-claim"):
+        e = edges.get(key)
+        ok = False
+        if e is not None and e[1] is not None:
+            dom = q.edge_dominated(b, e[0], e[1])
+            ok = bool(dom & ign) and not (dom & errs)
+        rep.ob(P, "%s:ignored-not-error%s" % (key, tag), ok, "receive_frame answers Ok(Ignored) where %s (an Err would end the TX/RX task that called it)" % key.replace("-", " "), loc=b.span, how="path")
+    # the claim made for a frame that is then ignored is handed back (checked by S4 under C05/C01)
+    # inventory: the shipped tasks that end on Err
+    users = sorted({c.body.root_short for c in prog.calls_of("PduRx::receive_frame") if c.body.crate == "ethercrab"})
+    rep.analysed["receive_frame callers" + tag] = users
